@@ -419,5 +419,158 @@ theorem linOut_right_toward (hX : StrictIncr ((m + 1) * n) X) (hk : 1 ≤ k) (hk
 
 end lin
 
+/-! ### the exponential strategies, one lemma per branch -/
+
+section exp
+variable {pw : K → K} {X Y : ℕ → K} {m n : ℕ} {w : Windows} {ad : Bool} {k i : ℕ}
+
+/-- `expOut` at sample `i` of extended interval `k ≤ m - 1` -/
+theorem expOut_idx (pw : K → K) (X Y : ℕ → K) (w : Windows) (ad : Bool) (hk : 1 ≤ k)
+    (hkm : k ≤ m - 1) (hi : i < n) :
+    expOut pw X Y m n w ad ((k - 1) * n + i) =
+      if i < w.bL k then
+        linFit (X (k * n + i)) (X (k * n), z0 X Y n w ad k)
+          (X (k * n + w.bL k), z0lb X Y n w ad k)
+      else if i < w.aL k then
+        linExpXYFit pw (X (k * n + i)) (X (k * n + w.bL k), z0lb X Y n w ad k)
+          (X (k * n + w.aL k), Y k)
+      else if n - w.aR k ≤ i ∧ i < n - w.bR k then
+        expLinFit pw (X (k * n + i)) (X (k * n + n - w.aR k), Y k)
+          (X (k * n + n - w.bR k), z0rb X Y n w ad k)
+      else if n - w.bR k ≤ i then
+        linFit (X (k * n + i)) (X (k * n + n - w.bR k), z0rb X Y n w ad k)
+          (X (k * n + n), z0 X Y n w ad (k + 1))
+      else Y k := by
+  have h1 : ((k - 1) * n + i) / n + 1 = k := by rw [idx_div _ _ hi]; omega
+  have h2 : ((k - 1) * n + i) % n = i := idx_mod _ _ hi
+  simp only [expOut, h1, h2, if_pos hkm]
+
+/-- the last sample of the result is never written by the exponential strategies -/
+theorem expOut_last (pw : K → K) (X Y : ℕ → K) (w : Windows) (ad : Bool) (hn : 0 < n)
+    (hm : 1 ≤ m) : expOut pw X Y m n w ad ((m - 1) * n) = Y m := by
+  have h1 : ((m - 1) * n) / n + 1 = m := by
+    have := idx_div (n := n) (m - 1) 0 hn
+    rw [Nat.add_zero] at this; rw [this]; omega
+  simp only [expOut, h1]
+  rw [if_neg (by omega)]
+
+theorem expOut_linL_eq (hk : 1 ≤ k) (hkm : k ≤ m - 1) (hi : i < w.bL k) (hin : i < n) :
+    expOut pw X Y m n w ad ((k - 1) * n + i) =
+      linFit (X (k * n + i)) (X (k * n), z0 X Y n w ad k)
+        (X (k * n + w.bL k), z0lb X Y n w ad k) := by
+  rw [expOut_idx pw X Y w ad hk hkm hin, if_pos hi]
+
+theorem expOut_blendL_eq (hk : 1 ≤ k) (hkm : k ≤ m - 1) (hb : w.bL k ≤ i) (hi : i < w.aL k)
+    (hin : i < n) :
+    expOut pw X Y m n w ad ((k - 1) * n + i) =
+      linExpXYFit pw (X (k * n + i)) (X (k * n + w.bL k), z0lb X Y n w ad k)
+        (X (k * n + w.aL k), Y k) := by
+  rw [expOut_idx pw X Y w ad hk hkm hin, if_neg (by omega), if_pos hi]
+
+theorem expOut_blendR_eq (hk : 1 ≤ k) (hkm : k ≤ m - 1) (hbL : w.bL k ≤ w.aL k) (hL : w.aL k ≤ i)
+    (ha : n - w.aR k ≤ i) (hi : i < n - w.bR k) :
+    expOut pw X Y m n w ad ((k - 1) * n + i) =
+      expLinFit pw (X (k * n + i)) (X (k * n + n - w.aR k), Y k)
+        (X (k * n + n - w.bR k), z0rb X Y n w ad k) := by
+  rw [expOut_idx pw X Y w ad hk hkm (by omega), if_neg (by omega), if_neg (by omega),
+    if_pos ⟨ha, hi⟩]
+
+theorem expOut_linR_eq (hk : 1 ≤ k) (hkm : k ≤ m - 1) (hbL : w.bL k ≤ w.aL k) (hL : w.aL k ≤ i)
+    (hb : n - w.bR k ≤ i) (hin : i < n) :
+    expOut pw X Y m n w ad ((k - 1) * n + i) =
+      linFit (X (k * n + i)) (X (k * n + n - w.bR k), z0rb X Y n w ad k)
+        (X (k * n + n), z0 X Y n w ad (k + 1)) := by
+  rw [expOut_idx pw X Y w ad hk hkm hin, if_neg (by omega), if_neg (by omega),
+    if_neg (by omega), if_pos hb]
+
+/-- hypotheses on the windows of one interval -/
+structure WinOk (w : Windows) (n k : ℕ) : Prop where
+  sum : w.aL k + w.aR k ≤ n
+  bL : w.bL k ≤ w.aL k
+  bR : w.bR k ≤ w.aR k
+
+theorem ValidWindows.ok {w : Windows} {m n : ℕ} (h : ValidWindows w m n) {k : ℕ} (hk : k ≤ m) :
+    WinOk w n k := ⟨(h k hk).1, (h k hk).2.1, (h k hk).2.2⟩
+
+/-- the sample at an interior border carries `z_0` (no condition on `pw`:
+`lin_exp_xy_fit` hits its left end point for every exponent) -/
+theorem expOut_border (hX : StrictIncr ((m + 1) * n) X) (hn : 0 < n) (hk : 1 ≤ k) (hkm : k ≤ m - 1)
+    (ho : WinOk w n k) (hL1 : 1 ≤ w.aL k) :
+    expOut pw X Y m n w ad ((k - 1) * n) = z0 X Y n w ad k := by
+  have hN := idx_bound n (show k ≤ m by omega)
+  have hoL := ho.bL
+  have hoS := ho.sum
+  rcases Nat.eq_zero_or_pos (w.bL k) with hb | hb
+  · have := expOut_blendL_eq (pw := pw) (X := X) (Y := Y) (ad := ad) (i := 0) hk hkm (by omega)
+      hL1 hn
+    rw [Nat.add_zero] at this
+    rw [this, hb, Nat.add_zero]
+    rw [linExpXYFit_left pw _ _ (X_lt hX (by omega) (by omega)).ne]
+    unfold z0lb
+    split_ifs with h
+    · rfl
+    · rw [hb, Nat.add_zero]; exact linFit_left _ _ _ _
+  · have := expOut_linL_eq (pw := pw) (X := X) (Y := Y) (ad := ad) (i := 0) hk hkm hb hn
+    rw [Nat.add_zero] at this
+    rw [this, Nat.add_zero]
+    exact linFit_left _ _ _ _
+
+theorem expOut_plateau (hp0 : pw 0 = 0) (hX : StrictIncr ((m + 1) * n) X) (hk : 1 ≤ k)
+    (hkm : k ≤ m - 1) (ho : WinOk w n k) (hL : w.aL k ≤ i) (hR : i ≤ n - w.aR k) (hin : i < n) :
+    expOut pw X Y m n w ad ((k - 1) * n + i) = Y k := by
+  have hN := idx_bound n (show k ≤ m by omega)
+  have hoL := ho.bL
+  have hoR := ho.bR
+  have hoS := ho.sum
+  rcases Nat.lt_or_ge i (n - w.aR k) with h | h
+  · rw [expOut_idx pw X Y w ad hk hkm hin, if_neg (by omega), if_neg (by omega),
+      if_neg (by omega), if_neg (by omega)]
+  · have hi : i = n - w.aR k := by omega
+    have e : k * n + i = k * n + n - w.aR k := by omega
+    rcases Nat.lt_or_ge (w.bR k) (w.aR k) with hb | hb
+    · rw [expOut_blendR_eq hk hkm hoL hL h (by omega), e]
+      exact expLinFit_left hp0 _ _ (X_lt hX (by omega) (by omega)).ne
+    · have hb' : w.bR k = w.aR k := by omega
+      rw [expOut_linR_eq hk hkm hoL hL (by omega) hin, e, hb']
+      rw [linFit_left]
+      unfold z0rb
+      rw [if_neg (by omega), hb']
+      exact linFit_left _ _ _ _
+
+theorem expOut_left_mem (hp : PowLike pw) (hX : StrictIncr ((m + 1) * n) X) (hk : 1 ≤ k)
+    (hkm : k ≤ m - 1) (ho : WinOk w n k) (hi : i < w.aL k) :
+    expOut pw X Y m n w ad ((k - 1) * n + i) ∈ Set.uIcc (z0 X Y n w ad k) (Y k) := by
+  have hN := idx_bound n (show k ≤ m by omega)
+  have hoL := ho.bL
+  have hoS := ho.sum
+  have hz : z0lb X Y n w ad k ∈ Set.uIcc (z0 X Y n w ad k) (Y k) :=
+    z0lb_mem_uIcc hX (by omega) hoL (by omega) (by omega)
+  rcases Nat.lt_or_ge i (w.bL k) with h | h
+  · rw [expOut_linL_eq hk hkm h (by omega)]
+    exact Set.uIcc_subset_uIcc Set.left_mem_uIcc hz
+      (linFit_grid_mem hX _ _ (by omega) (by omega) (by omega) (by omega))
+  · rw [expOut_blendL_eq hk hkm h hi (by omega)]
+    exact Set.uIcc_subset_uIcc hz Set.right_mem_uIcc
+      (linExpXYFit_grid_mem hX hp _ _ (by omega) (by omega) (by omega) (by omega))
+
+theorem expOut_right_mem (hp : PowLike pw) (hX : StrictIncr ((m + 1) * n) X) (hk : 1 ≤ k)
+    (hkm : k ≤ m - 1) (ho : WinOk w n k) (hR1 : 1 ≤ w.aR k) (hr : n - w.aR k ≤ i) (hin : i < n) :
+    expOut pw X Y m n w ad ((k - 1) * n + i) ∈ Set.uIcc (Y k) (z0 X Y n w ad (k + 1)) := by
+  have hN := idx_bound n (show k ≤ m by omega)
+  have hoL := ho.bL
+  have hoR := ho.bR
+  have hoS := ho.sum
+  have hz : z0rb X Y n w ad k ∈ Set.uIcc (Y k) (z0 X Y n w ad (k + 1)) :=
+    z0rb_mem_uIcc hX (by omega) hoR hR1 (by omega)
+  rcases Nat.lt_or_ge i (n - w.bR k) with h | h
+  · rw [expOut_blendR_eq hk hkm hoL (by omega) hr h]
+    exact Set.uIcc_subset_uIcc Set.left_mem_uIcc hz
+      (expLinFit_grid_mem hX hp _ _ (by omega) (by omega) (by omega) (by omega))
+  · rw [expOut_linR_eq hk hkm hoL (by omega) h hin]
+    exact Set.uIcc_subset_uIcc hz Set.right_mem_uIcc
+      (linFit_grid_mem hX _ _ (by omega) (by omega) (by omega) (by omega))
+
+end exp
+
 end Rfa
 end TWV
